@@ -158,6 +158,51 @@ def run(res, tier, seed):
                     break
         res.notes["gate_true_passes"] = res.notes.get("gate_true_passes", 0) + int(gate)
         res.add_case((sc, str(iv[0]), where), True, dict(ctx, gate=gate))
+    # ---------- the listed intervals are the published ones: search for a pass on which an edited table changes the gate ----------
+    import json as _json
+    import os as _os
+    spec_tab = _json.load(open(_os.path.join(common.VERIF, "spec", "tables.json")))["tsm"]
+    for sc, fmt, table, scid, fam_ in (("noaa14", "gac_pod", TSM_AFFECTED_INTERVALS_POD, 3, "pod"), ("noaa15", "gac_klm", TSM_AFFECTED_INTERVALS_KLM, 4, "klm"),
+                                       ("noaa16", "gac_klm", TSM_AFFECTED_INTERVALS_KLM, 2, "klm")):
+        spec_iv = [(int(a), int(b)) for a, b in spec_tab[fam_].get(str(scid), [])]
+        impl_iv = [(tg.ms_of(a), tg.ms_of(b)) for a, b in table.get(scid, [])]
+        if sorted(spec_iv) == sorted(impl_iv):
+            continue
+        cands = []
+        span = (n - 1) * 500
+        for a, b in set(impl_iv) ^ set(spec_iv):
+            cands += [a + 1000, b - span - 1000, (a + b) // 2]
+            for x, y in spec_iv + impl_iv:
+                for edge in (x, y):
+                    if a <= edge <= b:
+                        cands += [edge - span // 2, edge - span - 500, edge + 500]
+        cands = [(c, n) for c in cands]
+        # long passes that bridge two neighbouring edges of the published intervals inside a changed interval
+        for a, b in set(impl_iv) ^ set(spec_iv):
+            edges = sorted({e for iv in spec_iv + impl_iv for e in iv if a <= e <= b})
+            for e1, e2 in zip(edges, edges[1:]):
+                if e2 - e1 < 1500000:
+                    cands.append((e1 - 2000, (e2 - e1 + 4000) // 500 + 1))
+        found = False
+        for first, nl in cands:
+            start = tg.dt_of(first)
+            try:
+                lines = l1b.default_lines(fmt, nl, start)
+                r = impl.open_reader(fmt, l1b.build_file(fmt, sc, start, lines), adjust_clock_drift=False)
+                t = tg.to_ms_array(r.get_times())
+                gate = bool(r.is_tsm_affected())
+            except Exception:  # noqa
+                continue
+            exp = any(a <= t[0] and t[-1] <= b for a, b in spec_iv)
+            if gate != exp:
+                res.violations.append(("scan-motor masking is %s for a pass that lies %s the listed (published) intervals" % (
+                    "applied" if gate else "not applied", "outside" if gate else "inside one of"),
+                    dict(spacecraft=sc, fmt=fmt, first=str(tg.dt_of(t[0])), last=str(tg.dt_of(t[-1])), lines=nl, seed=seed,
+                         table_in_source_differs_from_published=True)))
+                found = True
+                break
+        if not found:
+            res.no_input.append("the scan-motor interval table of %s in the source differs from the published one (spec/tables.json)" % sc)
     for fam, lst in gate_cases.items():
         failing, logs = common.coq_eval("c19_gate_" + fam, "From PV Require Import M_Tsm Gen_Tsm.", "(check_gate tsm_%s)" % fam, lst, shard=200,
                                         ctype="Z * Z * Z * bool")
